@@ -55,6 +55,11 @@ def check_set(ctx, rng, params, nlevels):
             rec.violation('construction-raises:' + desc['type'], {'exception': desc}, case, 'spline_T')
         return
     ratios = [max(a / b, b / a) for a, b in zip(K[:-1], K[1:])]
+    # conditioning: rounding a level by one ulp changes K by exp(s * ulp), s = d ln K / dz;
+    # knots a fraction of a mm apart at tens of metres make that visible
+    import math
+    max_s = max(abs(math.log(K[j + 1] / K[j]) / (knots[j + 1] - knots[j])) for j in range(len(knots) - 1))
+    rel_tol = 1e-9 + 16 * 2.0 ** -52 * max(abs(knots[0]), abs(knots[-1]), 1.0) * max_s
     if len(K) >= 3 and any(K[i] > 1e3 * max(K[i - 1], K[i + 1]) for i in range(1, len(K) - 1)):
         rec.hit('narrow-spike-sets')
     lo, hi = knots[0], knots[-1]
@@ -102,7 +107,7 @@ def check_set(ctx, rng, params, nlevels):
             rec.hit('levels-at-a-knot')
         elif any(abs(z - k) <= 2e-9 * max(1.0, abs(k)) for k in knots):
             rec.hit('levels-beside-a-knot')
-        if abs(v - ref) > 1e-9 * abs(ref):
+        if abs(v - ref) > rel_tol * abs(ref):
             rec.violation('differs-from-minimum-plus-integral-of-conductivity', dict(w, relative_error=abs(v - ref) / abs(ref)), dict(case, level=z), 'spline_T')
             return
         rec.note_max('max relative error vs closed form', abs(v - ref) / abs(ref))
@@ -113,7 +118,7 @@ def check_set(ctx, rng, params, nlevels):
             rec.mark_nontrivial(core.digest((knots, K, z)))
     for (z0, v0), (z1, v1) in zip(zip(levels, values), zip(levels[1:], values[1:])):
         rec.hit('monotonicity-pairs')
-        if v1 < v0 - 1e-10 * abs(v0):  # each value is a separate quadrature, accurate to about 1e-12 relative
+        if v1 < v0 - max(1e-10, rel_tol) * abs(v0):  # each value is a separate quadrature, accurate to about 1e-12 relative
             rec.violation('decreases-as-the-water-level-rises', {'levels': [z0, z1], 'T': [v0, v1], 'knots': knots, 'K': K}, dict(case, level=z1), 'spline_T')
             return
     # continuity across interior knots
@@ -122,7 +127,7 @@ def check_set(ctx, rng, params, nlevels):
         a, b = float(T(k - d)), float(T(k + d))
         kk = max(oh.transmissivity_closed_form(k, knots, K, tmin), tmin)
         slope = max(K)
-        if abs(b - a) > 2 * d * slope * 1.01 + 1e-9 * kk:
+        if abs(b - a) > 2 * d * slope * 1.01 + max(1e-9, rel_tol) * max(kk, abs(a), abs(b)):
             rec.violation('jump-across-a-knot', {'knot': k, 'below': a, 'above': b}, dict(case, level=k), 'spline_T')
             return
         rec.hit('continuity-checked')
@@ -167,7 +172,9 @@ def check_dump(ctx, rng):
         return
     for z_cm, v in rows:
         exp = oh.transmissivity_closed_form(z_cm * 10, knots, K, float(pT['minimum_transmissivity_m2_d']))
-        if abs(v - exp) > 1e-9 * abs(exp):
+        import math
+        max_s = max(abs(math.log(K[j + 1] / K[j]) / (knots[j + 1] - knots[j])) for j in range(len(knots) - 1))
+        if abs(v - exp) > (1e-9 + 16 * 2.0 ** -52 * max(abs(knots[0]), abs(knots[-1]), 1.0) * max_s + 1e-12 * abs(z_cm)) * abs(exp):
             rec.violation('dumped-transmissivity-differs-from-minimum-plus-integral', {'level_cm': z_cm, 'dumped': v, 'expected': exp, 'params': pT}, case, 'dump')
             return
     rec.hit('dumped-T-values-checked', len(rows))
